@@ -1763,15 +1763,23 @@ pub fn gen_deep_program(r: &mut Rng, cfg: Cfg, levels: usize) -> Prog {
             }
         }
     }
-    g.path = vec!["deep-nesting"; 3]; // keep inner constructs shallow
-    let n = g.r.below(3);
-    g.body_stmts(n);
-    g.path.clear();
-    let tail = g.r.chance(1, 2);
-    if tail {
-        g.value_tail();
-    }
+    let mut innermost = true;
     while let Some(c) = closers.pop() {
+        // statements and then possibly a value tail in this level's body (in the innermost block,
+        // and at intermediate levels after the deeper blocks have closed); the tail is always last
+        let outermost = closers.is_empty();
+        if innermost || g.r.chance(1, if outermost { 2 } else { 10 }) {
+            if innermost || g.r.chance(1, 2) {
+                g.path = vec!["deep-nesting"; 3]; // keep inner constructs shallow
+                let n = g.r.range(usize::from(!innermost), 2);
+                g.body_stmts(n);
+                g.path.clear();
+            }
+            if g.r.chance(1, 2) {
+                g.value_tail();
+            }
+        }
+        innermost = false;
         if c == 1 {
             g.put("%end;");
         } else {
